@@ -9,35 +9,35 @@ HERE = os.path.dirname(os.path.dirname(os.path.abspath(__file__)))
 NOTES = {
     'C01': 'Trusted: ast grammar docs, T1/T2 tables in sa/pyref.py, frozen helper summaries (re-validated each run). Depth-1 '
            'templates (opaque children create no regions; continuity rule covers region-creating children). Not decided: '
-           'value-level lookup for arbitrary programs, star-import resolution, builtins, anything depending on Project.',
+           'value-level lookup for arbitrary programs, star-import resolution, builtins, anything depending on Project. API-level glue (which table is consulted, what is marked, copied, sorted, caught) is decided by bounded abstract execution on stub collaborators (sa/api_model.py): exact for the enumerated scenarios, not a proof for all inputs.',
     'C02': 'Trusted: reference CFG templates T3 (C02 domain). Not decided: position cut of names_at for arbitrary layouts, '
-           'inter-scope reads, evaluation in declarations() beyond the alternatives list.',
+           'inter-scope reads, evaluation in declarations() beyond the alternatives list. API-level glue (which table is consulted, what is marked, copied, sorted, caught) is decided by bounded abstract execution on stub collaborators (sa/api_model.py): exact for the enumerated scenarios, not a proof for all inputs.',
     'C03': 'Trusted: reference CFG templates T3. Not decided: precision of get_expr_end (last visited vs textually last node), '
            'escapes (return/raise do not end a region in supp: recorded in DESIGN.md as a finding this family cannot key).',
     'C04': 'Trusted: typed call graph from the repository\'s # type: comments. Cycles through EvalCtx.evaluate are listed, not '
-           'armed. Not decided: equality of answers under concrete query orders.',
+           'armed. Not decided: equality of answers under concrete query orders. API-level glue (which table is consulted, what is marked, copied, sorted, caught) is decided by bounded abstract execution on stub collaborators (sa/api_model.py): exact for the enumerated scenarios, not a proof for all inputs.',
     'C05': 'Trusted: T1 table. Not decided: agreement with symtable on real files; free-variable resolution through several '
            'levels beyond the modelled chain.',
     'C06': 'Not decided: that evaluation reaches the right class for an arbitrary expression, import forms, descriptors beyond '
-           'the two recognised decorator kinds.',
-    'C07': 'Not decided: agreement with importlib on concrete trees, relative-name arithmetic, list_packages contents.',
+           'the two recognised decorator kinds. API-level glue (which table is consulted, what is marked, copied, sorted, caught) is decided by bounded abstract execution on stub collaborators (sa/api_model.py): exact for the enumerated scenarios, not a proof for all inputs.',
+    'C07': 'Not decided: agreement with importlib on concrete trees, relative-name arithmetic, list_packages contents. API-level glue (which table is consulted, what is marked, copied, sorted, caught) is decided by bounded abstract execution on stub collaborators (sa/api_model.py): exact for the enumerated scenarios, not a proof for all inputs.',
     'C08': 'Trusted: frozen table of raising stdlib calls. Not decided: exceptions raised by stdlib calls outside the table, '
-           'stack depth.',
-    'C09': 'Not decided: equality of answers after a concrete edit history; mtime granularity; deletion/shadowing.',
+           'stack depth. API-level glue (which table is consulted, what is marked, copied, sorted, caught) is decided by bounded abstract execution on stub collaborators (sa/api_model.py): exact for the enumerated scenarios, not a proof for all inputs.',
+    'C09': 'Not decided: equality of complete answers after a concrete edit history (the module cache itself is explored over all histories up to length 3/5); mtime granularity; deletion/shadowing. API-level glue (which table is consulted, what is marked, copied, sorted, caught) is decided by bounded abstract execution on stub collaborators (sa/api_model.py): exact for the enumerated scenarios, not a proof for all inputs.',
     'C10': 'Interpretation: "parameter of a method" = parameter of a def or lambda whose enclosing scope is a class body. Not '
-           'decided: whether `used` is set for the right bindings (C02), the "never read in the file" premise.',
-    'C11': 'Trusted: CPython node positions. Import aliases, def and class names are positioned by text search: NOT decided.',
-    'C12': 'Not decided: mark transparency (a relation between two analyses of every file and position).',
-    'C13': 'Trusted: token-start order is layout invariant. Not decided: equality of diagnostics between concrete layouts.',
+           'decided: whether `used` is set for the right bindings (C02), the "never read in the file" premise. API-level glue (which table is consulted, what is marked, copied, sorted, caught) is decided by bounded abstract execution on stub collaborators (sa/api_model.py): exact for the enumerated scenarios, not a proof for all inputs.',
+    'C11': 'Trusted: CPython node positions. Import aliases, def and class names are positioned by text search: NOT decided. API-level glue (which table is consulted, what is marked, copied, sorted, caught) is decided by bounded abstract execution on stub collaborators (sa/api_model.py): exact for the enumerated scenarios, not a proof for all inputs.',
+    'C12': 'Not decided: mark transparency (a relation between two analyses of every file and position). API-level glue (which table is consulted, what is marked, copied, sorted, caught) is decided by bounded abstract execution on stub collaborators (sa/api_model.py): exact for the enumerated scenarios, not a proof for all inputs.',
+    'C13': 'Trusted: token-start order is layout invariant. Not decided: equality of diagnostics between concrete layouts. API-level glue (which table is consulted, what is marked, copied, sorted, caught) is decided by bounded abstract execution on stub collaborators (sa/api_model.py): exact for the enumerated scenarios, not a proof for all inputs.',
     'C14': 'Trusted: struct format semantics (CPython), the transcription of the spec table in sa/msgpack_spec.py. Not decided: '
            'float bit-exactness, UTF-8 content, nesting beyond depth 1 (nested values are cut; list keys are checked to depth 3), '
            'values between the sampled points of an interval (ends, their neighbours, the middle).',
     'C15': 'Trusted: multiprocessing.connection message framing. Not decided: equality of remote and in-process results, '
-           'ordering under concurrent callers, multi-MiB payloads (C14 covers the length formats).',
+           'ordering under concurrent callers, multi-MiB payloads (C14 covers the length formats). API-level glue (which table is consulted, what is marked, copied, sorted, caught) is decided by bounded abstract execution on stub collaborators (sa/api_model.py): exact for the enumerated scenarios, not a proof for all inputs.',
     'C16': 'Trusted: threading.Lock/Thread.join semantics; an own write between two reads re-establishes the value. Not '
-           'decided: deadlock freedom with real processes, OS-level Listener/Client behaviour, launch time-outs.',
-    'C17': 'Trusted: lists built by ast visitors / position-ordered insertion are deterministic; reasoned table of hash-ordered '
-           'dicts. Not decided: equality of the outputs of two concrete processes.',
+           'decided: deadlock freedom with real processes, OS-level Listener/Client behaviour, launch time-outs. API-level glue (which table is consulted, what is marked, copied, sorted, caught) is decided by bounded abstract execution on stub collaborators (sa/api_model.py): exact for the enumerated scenarios, not a proof for all inputs.',
+    'C17': 'Trusted: lists built by ast visitors / position-ordered insertion are deterministic; '
+           'Not decided: equality of the outputs of two concrete processes. API-level glue (which table is consulted, what is marked, copied, sorted, caught) is decided by bounded abstract execution on stub collaborators (sa/api_model.py): exact for the enumerated scenarios, not a proof for all inputs.',
 }
 
 NOT_YET = {}
